@@ -463,6 +463,9 @@ func runC06(seed int64, n int, tier string, outDir string) (*Report, error) {
 		{{Ref: "en", Value: nil}, {Ref: "fr", Value: nil}}, {{Ref: "-", Value: nil}, {Ref: "-", Value: ap.Content("x")}}, {{Ref: "en", Value: ap.Content("a")}, {Ref: "en", Value: ap.Content("b")}},
 		{{Ref: "-", Value: ap.Content("a")}, {Ref: "-", Value: ap.Content("b")}, {Ref: "", Value: ap.Content("c")}}, {{Ref: "\xff", Value: ap.Content("\xfe")}, {Ref: "en", Value: ap.Content("a\x80")}},
 		{{Ref: "-", Value: ap.Content("\xff")}}, {{Ref: "", Value: ap.Content("")}, {Ref: "", Value: ap.Content("")}},
+		// a repeated tag FOLLOWED by other tags: the later tags are written
+		{{Ref: "en", Value: ap.Content("a")}, {Ref: "en", Value: ap.Content("b")}, {Ref: "fr", Value: ap.Content("c")}},
+		{{Ref: "-", Value: ap.Content("a")}, {Ref: "en", Value: ap.Content("b")}, {Ref: "-", Value: ap.Content("c")}, {Ref: "fr", Value: ap.Content("d")}, {Ref: "en", Value: ap.Content("e")}, {Ref: "de", Value: ap.Content("f")}},
 	}
 
 	// ------------------------------------------------------------ marshalers
